@@ -129,15 +129,19 @@ class CompMixin:
             st_b = self.assume_wf(st_b, el)
             pushed += st_b.pc[n0:]
         flt = z3.BoolVal(True)
+        staged = []       # (guards in force, facts learnt) while evaluating each filter: those facts hold whether or not
+        n_seen = len(st_b.pc)   # the filter itself turns out true
         for cond in g.ifs:
             pv, info = self.ev_pure(cond, st_b)
             if pv is None:
                 raise EngineError(f"comprehension filter has effects: {ast.unparse(cond)}")
             st_b = info
+            staged.append((list(pushed), list(st_b.pc[n_seen:])))
             c = truth(self.as_value(pv))
             flt = z3.And(flt, c)
             pushed.append(c)
             st_b = st_b.assume(c)
+            n_seen = len(st_b.pc)
         out = []
         for ex in exprs:
             pv, info = self.ev_pure(ex, st_b)
@@ -155,11 +159,13 @@ class CompMixin:
             else:
                 st_b = info
             out.append(pv)
-        facts = [p for p in st_b.pc[len(st.pc):] if not any(p.eq(q) for q in pushed)]
+        facts = [p for p in st_b.pc[n_seen:] if not any(p.eq(q) for q in pushed)]
+        staged = [(gs, [p for p in fs if not any(p.eq(q) for q in pushed)]) for gs, fs in staged]
+        staged = [(gs, fs) for gs, fs in staged if fs]
         axioms = []
-        if facts:
+        if facts or staged:
             from .stmts import _consts
-            terms = list(facts) + [z for v in out if isinstance(v, V) for z in v.zs] + [flt]
+            terms = list(facts) + [f_ for _, fs in staged for f_ in fs] + [z for v in out if isinstance(v, V) for z in v.zs] + [flt]
             sub = []
             seen = set()
             for t_ in terms:
@@ -176,10 +182,14 @@ class CompMixin:
                             sub.append((c, f(idx)))
             if sub:
                 facts = [z3.substitute(f_, *sub) for f_ in facts]
+                staged = [([z3.substitute(g_, *sub) for g_ in gs], [z3.substitute(f_, *sub) for f_ in fs]) for gs, fs in staged]
                 flt = z3.substitute(flt, *sub)
                 pushed = [z3.substitute(p_, *sub) for p_ in pushed]
                 out = [V(v.t, [z3.substitute(z, *sub) for z in v.zs]) if isinstance(v, V) else v for v in out]
-            axioms.append(z3.ForAll([idx], z3.Implies(z3.And(*pushed), z3.And(*facts))))
+            for gs, fs in staged:
+                axioms.append(z3.ForAll([idx], z3.Implies(z3.And(*gs), z3.And(*fs))))
+            if facts:
+                axioms.append(z3.ForAll([idx], z3.Implies(z3.And(*pushed), z3.And(*facts))))
         return guard, flt, out, axioms
 
     def quantify(self, st: State, node, universal: bool):
